@@ -1,8 +1,8 @@
 (** C01 — rejection ABC returns exactly the best simulated draws, row-consistent.
     Model: Sched/Reject.v (buffer of n+b rows, merge, stable lexsort, state meta, batch estimator).
-    Proofs: Proofs/C01_Sorting.v, C01_Reject.v, C01_Estimator.v, C01_History.v, C01_OkMeaning.v. *)
+    Proofs: Proofs/C01_Sorting.v, C01_Reject.v, C01_Estimator.v, C01_History.v, C01_OkMeaning.v, C01_ModelOk.v. *)
 From Coq Require Import List ZArith NArith Arith Bool Sorting.Permutation Sorting.Sorted PrimFloat Lia.
-From Elfi Require Import Sched.Sched Sched.Reject Proofs.C01_Sorting Proofs.C01_Reject Proofs.C01_Estimator Proofs.C01_History Proofs.C01_OkMeaning.
+From Elfi Require Import Sched.Sched Sched.Reject Proofs.C01_Sorting Proofs.C01_Reject Proofs.C01_Estimator Proofs.C01_History Proofs.C01_OkMeaning Proofs.C01_ModelOk.
 Import ListNotations.
 
 (** After every history of consumed batches (any number, any content, at most batch_size rows each)
@@ -368,4 +368,62 @@ Proof.
   vm_compute in E. inversion E; subst. eexists. split; [reflexivity|].
   assert (Hpos : 0 < 4) by lia.
   destruct (H3 _ eq_refl Hpos) as [Hb Hs]. split; [exact Hpos|]. split; [exact Hb | exact Hs].
+Qed.
+
+(** ---- the model's own result passes the check; agreement with the model implies the property ---- *)
+
+(** The result the model computes for a case, written into the case's result fields
+    ([with_result c r] = [c] with [c_rows], [c_threshold], [c_n_sim], [c_n_batches] taken from [r]),
+    passes [ok] - for EVERY case with batches of at most batch_size rows, n_samples >= 1, at least
+    n_samples accepted draws among the consumed ones, and a record [c_table] that is exactly the batches
+    the run consumed.  So [ok] is satisfiable on every such input, not only on the sampled ones. *)
+Theorem C01_model_ok :
+  forall c r,
+    Forall (fun batch => length batch <= c_b c) (c_table c) ->
+    0 < c_n c ->
+    c_n c <= length (filter (accepts (match c_form c with ByThreshold t _ => Some t | _ => None end)) (concat (c_table c))) ->
+    model_result c = Some r ->
+    res_n_batches r = length (c_table c) ->
+    ok {| c_n := c_n c; c_b := c_b c; c_form := c_form c; c_table := c_table c;
+          c_rows := res_rows r; c_threshold := res_threshold r;
+          c_n_sim := res_n_sim r; c_n_batches := res_n_batches r |} = true.
+Proof. exact model_ok. Qed.
+Print Assumptions C01_model_ok.
+
+(** Hence an implementation whose result agrees with the model's has the property. *)
+Theorem C01_agree_ok :
+  forall c,
+    Forall (fun batch => length batch <= c_b c) (c_table c) ->
+    0 < c_n c ->
+    c_n c <= length (filter (accepts (match c_form c with ByThreshold t _ => Some t | _ => None end)) (concat (c_table c))) ->
+    c_n_batches c = length (c_table c) ->
+    agree c = true -> ok c = true.
+Proof. exact agree_ok. Qed.
+Print Assumptions C01_agree_ok.
+
+(** Non-vacuity: a threshold-form run (threshold 1, n_samples 2, batch_size 2) that consumes all four
+    recorded batches, with a tie at the cut and infinite discrepancies - by the theorem, and the
+    evaluated result; and the two hypotheses on n_samples cannot be dropped (n_samples = 0; a budget
+    n_sim = 2 < n_samples = 4): there the model's own result does NOT pass [ok]. *)
+Example C01_model_ok_example :
+  let c := mk 2 2 (ByThreshold (Fin 1) 1) c01au_t in
+  (exists r, model_result c = Some r /\ res_n_batches r = 4
+             /\ res_rows r = [Some (dz 0 3); Some (dz 0 6)] /\ res_threshold r = Fin 0
+             /\ ok (with_result c r) = true)
+  /\ (let c0 := mk 0 2 (ByNsim 4) (firstn 2 c01au_t) in
+      match model_result c0 with
+      | Some r => Nat.eqb (res_n_batches r) (length (c_table c0)) && negb (ok (with_result c0 r))
+      | None => false end = true)
+  /\ (let c1 := mk 4 2 (ByNsim 2) (firstn 1 c01au_t) in
+      match model_result c1 with
+      | Some r => Nat.eqb (res_n_batches r) (length (c_table c1)) && negb (ok (with_result c1 r))
+      | None => false end = true).
+Proof.
+  intros c. split; [|split; vm_compute; reflexivity].
+  destruct (model_result c) as [r|] eqn:E; [|vm_compute in E; discriminate].
+  exists r. split; [reflexivity|].
+  assert (Hnb : res_n_batches r = 4) by (vm_compute in E; inversion E; reflexivity).
+  split; [exact Hnb|]. split; [vm_compute in E; inversion E; reflexivity|].
+  split; [vm_compute in E; inversion E; reflexivity|].
+  apply (C01_model_ok c r); [repeat constructor | vm_compute; lia | vm_compute; lia | exact E | exact Hnb].
 Qed.
